@@ -486,6 +486,10 @@ def evaluate(cases, with_model=True):
     terms = [(j, t) for j, t in terms if t is not None]
     model = {}
     if with_model:
+        # the executable instance is not a dependency of any obligation file (no theorem may depend on floats):
+        # (re)build it here against the freshly translated Gen kernels
+        with F.BuildLock():
+            F.make(["C20/ModelExec.vo"], timeout=600)
         res = F.eval_terms(ID, HEADER, [t for _, t in terms], shard=max(20, (len(terms) + 15) // 16))
         model = {j: r for (j, _), r in zip(terms, res)}
     mismatches, oracle_fail = [], []
